@@ -140,10 +140,13 @@ func lookupByDomain(tree *iTree, target *node, host, path string, c *cTx, lazy b
 	*c.skipNds = (*c.skipNds)[:0]
 
 	idx := -1
-	for i := 0; i < len(target.childKeys); i++ {
-		if target.childKeys[i] == host[0] {
-			idx = i
-			break
+	// The '/' edge leads to the path sub-tree: it is never part of a hostname.
+	if host[0] != slashDelim {
+		for i := 0; i < len(target.childKeys); i++ {
+			if target.childKeys[i] == host[0] {
+				idx = i
+				break
+			}
 		}
 	}
 	if idx < 0 {
@@ -217,10 +220,13 @@ Walk:
 		if charsMatched < len(host) {
 			// linear search
 			idx = -1
-			for i := 0; i < len(current.childKeys); i++ {
-				if current.childKeys[i] == host[charsMatched] {
-					idx = i
-					break
+			// The '/' edge leads to the path sub-tree: it is never part of a hostname.
+			if host[charsMatched] != slashDelim {
+				for i := 0; i < len(current.childKeys); i++ {
+					if current.childKeys[i] == host[charsMatched] {
+						idx = i
+						break
+					}
 				}
 			}
 
